@@ -2,6 +2,7 @@ package shapes
 
 import (
 	"context"
+	"encoding/json"
 	"fmt"
 	"reflect"
 	"sort"
@@ -56,7 +57,7 @@ type Phase struct {
 	Name     string
 	Depth    int
 	Full     int
-	Override int    // index into OverrideMaps, -1 = all
+	Override int // index into OverrideMaps, -1 = all
 	Wrappers []string
 	Chunks   int
 }
@@ -129,6 +130,7 @@ func RunJob(prop, cls, tier string, js JobSpec, deadline time.Time) *hk.Result {
 					c.Wrapper = "fail"
 					fmt.Sscanf(w, "fail%d", &c.FailAt)
 				}
+				name := fmt.Sprintf("shape=%s overrides=%s wrapper=%s", n, ovName(ovs[oi]), w)
 				// default configuration: run under both iteration orders of the
 				// library's map walks (Go's own order is random)
 				orders := []bool{false}
@@ -147,6 +149,17 @@ func RunJob(prop, cls, tier string, js JobSpec, deadline time.Time) *hk.Result {
 						res.Add("reversed_map_order_cases", 1)
 					}
 				}
+				// default configuration, shallow shapes: also with an already cancelled
+				// context (cancellation may make Process fail, never forward a half-filtered event)
+				if ph.Override == 0 && len(r.Problems) == 0 && i%3 == 0 {
+					cc := c
+					cc.CancelledCtx = true
+					if rc := Run(cc); len(rc.Problems) > 0 {
+						r = rc
+						name += " cancelled-context"
+					}
+					res.Add("cancelled_context_cases", 1)
+				}
 				res.Add("execs", 1)
 				res.Add("steps", 1)
 				res.Add("nodes", 1)
@@ -156,7 +169,6 @@ func RunJob(prop, cls, tier string, js JobSpec, deadline time.Time) *hk.Result {
 				} else if r.Out == nil {
 					outcome = "dropped"
 				}
-				name := fmt.Sprintf("shape=%s overrides=%s wrapper=%s", n, ovName(ovs[oi]), w)
 				for _, p := range r.Problems {
 					if p.Class == "over-redaction" {
 						res.Add("over_redactions", 1)
@@ -365,6 +377,62 @@ func Specials(prop, cls string) *hk.Result {
 			}
 			res.Outcome(fmt.Sprintf("special ignore-types %v", withIgnore))
 		}
+	}
+	// histories on ONE filter instance: reconfiguring the overrides between events
+	{
+		shape := &Node{K: "pstruct", Kids: []*Node{{K: KStr, Name: "X", Tag: "secret"}, {K: KStr, Name: "Y", Tag: "sensitive"}, {K: KStr, Name: "Z"}, {K: "map", Name: "M", Kids: []*Node{{K: KStr, Name: "k"}}}}}
+		allNone := map[encrypt.DataClassification]encrypt.FilterOperation{encrypt.PublicClassification: encrypt.NoOperation, encrypt.SensitiveClassification: encrypt.NoOperation, encrypt.SecretClassification: encrypt.NoOperation}
+		secEnc := map[encrypt.DataClassification]encrypt.FilterOperation{encrypt.SecretClassification: encrypt.EncryptOperation}
+		senRed := map[encrypt.DataClassification]encrypt.FilterOperation{encrypt.SensitiveClassification: encrypt.RedactOperation}
+		seqs := [][]map[encrypt.DataClassification]encrypt.FilterOperation{
+			{allNone, nil}, {nil, allNone, nil}, {secEnc, nil}, {allNone, senRed}, {senRed, allNone, secEnc, nil},
+		}
+		for si, seq := range seqs {
+			f := &encrypt.Filter{Wrapper: base}
+			for step, ov := range seq {
+				count()
+				r := RunOn(f, Case{Shape: shape, Overrides: ov, Wrapper: "keep"})
+				name := fmt.Sprintf("one filter, overrides history #%d step %d (%s)", si, step+1, ovName(ov))
+				if r.Err != nil {
+					fail(name, "Process failed: %v", r.Err)
+				}
+				for _, p := range r.Problems {
+					if p.Class == cls {
+						fail(name, "%s", p.Text)
+					}
+				}
+				res.Outcome(name)
+			}
+		}
+	}
+	// values of defined string / byte types keep their dynamic type
+	if cls == "copy" {
+		type status string
+		type holder struct {
+			M   map[string]interface{}
+			Sec string `class:"secret"`
+		}
+		count()
+		in := &holder{M: map[string]interface{}{"st": status("open"), "raw": json.RawMessage(`{"a":1}`), "n": 7}, Sec: "x"}
+		func() {
+			defer func() {
+				if p := recover(); p != nil {
+					fail("defined string/byte types in a map", "the filter panicked: %v", p)
+				}
+			}()
+			out, err := mk().Process(ctx, &el.Event{Type: "t", Payload: in})
+			if err != nil || out == nil {
+				fail("defined string/byte types in a map", "Process failed: %v", err)
+				return
+			}
+			om := out.Payload.(*holder).M
+			for k, v := range in.M {
+				if reflect.TypeOf(om[k]) != reflect.TypeOf(v) {
+					fail("defined string/byte types in a map", "map value %q changed its dynamic type from %T to %T", k, v, om[k])
+				}
+			}
+		}()
+		res.Outcome("special defined-types")
 	}
 	// rotation payloads are consumed
 	if cls == "leak" {
